@@ -122,7 +122,13 @@ def evaluate(case) -> Outcome:
 
         if step["op"] == "query":
             s = step["s"]
-            finders = {"list": lambda: FindInList(list(L)), "paths": lambda: FindInPaths(cname), "all": lambda: FindInAll()}
+            # the list also holds entries that no template types but that a search may match (unknown extension, junk level)
+            noisy = list(L)
+            for e_ in L[:4]:
+                segs_ = e_.split("/")
+                noisy.insert(0, "/".join(segs_[:-1] + ["zz9"]))
+                noisy.append(e_ + "/zz9")
+            finders = {"list": lambda: FindInList(list(noisy)), "paths": lambda: FindInPaths(cname), "all": lambda: FindInAll()}
             for name, mk in finders.items():
                 ok, found = call(lambda: list(mk().find(s)))
                 out.evaluations += 1
